@@ -65,6 +65,17 @@ fn env_seed() -> u64 {
 }
 
 fn main() {
+    // glibc malloc tuning (speed only, no influence on any result): the CRAM codecs allocate and
+    // free multi-megabyte zeroed tables per block; served by mmap/munmap, every run pays for fresh
+    // page faults (minutes of system time per case inside this VM).  Keep such blocks on the heap
+    // of a single arena and never give memory back.
+    // SAFETY: mallopt is called before any other thread exists
+    unsafe {
+        libc::mallopt(libc::M_ARENA_MAX, 1);
+        libc::mallopt(libc::M_MMAP_THRESHOLD, 32 << 20);
+        libc::mallopt(libc::M_TRIM_THRESHOLD, 1 << 30);
+        libc::mallopt(libc::M_TOP_PAD, 64 << 20);
+    }
     let args: Vec<String> = std::env::args().skip(1).collect();
     let code = real_main(&args);
     std::process::exit(code);
